@@ -1076,6 +1076,49 @@ theorem wrap_refills (c : Cfg) (free : Int) (el : Nat) (hf : free ≤ c.maxBudge
 theorem zero_budget_creates :
     (getOrCreate { maxBudget := 0, step := 60, bonus := 0, globalBudget := 0 } State.empty 1 1 600).2 = .created 1 := by decide
 
+/-- "the value set by a flood reset" has a ceiling: whatever value is requested, the row a reset-flood leaves behind holds
+    min(requested value, 10000) — in particular never more than the ceiling and never more than what the reply reports -/
+theorem reset_budget_le_ceiling (c : Cfg) (s : State) (m : Nat) (limit : Int) (now : Nat) (f : Flood)
+    (h : lookupFlood (resetFlood c s m limit now).1.flood m = some f) :
+    0 < limit ∧ f.free = min limit maxResetLimit ∧ f.free ≤ maxResetLimit ∧ f.free = (resetFlood c s m limit now).2.2 := by
+  by_cases hl : limit ≤ 0
+  · rw [(reset_sets_budget c s m limit now).1 hl] at h; cases h
+  · have hpos : 0 < limit := by omega
+    rw [(reset_sets_budget c s m limit now).2 hpos] at h
+    injection h with h
+    subst h
+    have hafter : (resetFlood c s m limit now).2.2 = resetAfter c limit := by unfold resetFlood; split <;> rfl
+    refine ⟨hpos, ?_, ?_, hafter.symm⟩
+    · have hc10 : maxResetLimit = 10000 := rfl
+      simp only [resetAfter, hl, if_false]
+      by_cases h1 : maxResetLimit < limit
+      · rw [if_pos h1]; omega
+      · rw [if_neg h1]; omega
+    · have hc10 : maxResetLimit = 10000 := rfl
+      simp only [resetAfter, hl, if_false]
+      by_cases h1 : maxResetLimit < limit
+      · rw [if_pos h1]; omega
+      · rw [if_neg h1]; omega
+
+/-- the seeded variant C19-r4-1 (the reply is clamped, the stored budget is the raw value), next to the model: a reset to 20000
+    leaves a budget of 20000 while reporting 10000; a budget above maxBudget is never capped by calcBudget (`attempt_cap`), so the
+    metric really gets 20000 creations; `FloodBounded`, which every reachable state of the real model satisfies, fails -/
+def resetFloodRaw (c : Cfg) (s : State) (metric : Nat) (limit : Int) (now : Nat) : State × Int × Int :=
+  if limit ≤ 0 then resetFlood c s metric limit now
+  else ({ s with flood := setFlood s.flood { metric := metric, last := now, free := limit } }, freeCount c s, resetAfter c limit)
+
+example : (resetFloodRaw c3 State.empty 1 20000 600).1.flood = [{ metric := 1, last := 600, free := 20000 }] ∧
+    (resetFloodRaw c3 State.empty 1 20000 600).2.2 = 10000 := by decide
+example : (resetFlood c3 State.empty 1 20000 600).1.flood = [{ metric := 1, last := 600, free := 10000 }] := by decide
+example : attempt c3 20000 0 = 19999 ∧ attempt c3 10001 0 = 10000 := by decide
+example : ¬ FloodBounded c3 (resetFloodRaw c3 State.empty 1 20000 600).1 := by
+  intro h
+  exact absurd (h { metric := 1, last := 600, free := 20000 } (by decide)) (by decide)
+-- non-vacuity of `reset_budget_le_ceiling`: values around the ceiling
+example : ((resetFlood c3 State.empty 1 9999 5).1.flood.map (·.free), (resetFlood c3 State.empty 1 10000 5).1.flood.map (·.free),
+    (resetFlood c3 State.empty 1 10001 5).1.flood.map (·.free), (resetFlood c3 State.empty 1 2147483647 5).1.flood.map (·.free))
+    = ([9999], [10000], [10000], [10000]) := by decide
+
 /-! ### non-vacuity and the observed quirks -/
 
 
